@@ -383,10 +383,28 @@ def run_one(ctx: Any, seed: int, tier: str, replay: Optional[dict] = None) -> di
 def shrink_candidates(rp: dict):
     import copy
 
-    from vsim.shrink import list_candidates
+    from vsim.shrink import drop_world_files, list_candidates
 
     for h in list_candidates(rp["history"]):
         if h:
             r = copy.deepcopy(rp)
             r["history"] = h
             yield "drop history ops", r
+
+    def fix(r: dict, removed: set) -> bool:
+        cwd = r["world"]["cwd"]
+        gone = {os.path.relpath(x, cwd) for x in removed}
+        hist = []
+        for op in r["history"]:
+            op = dict(op)
+            if "paths" in op and op["paths"] != ["."]:
+                op["paths"] = [p_ for p_ in op["paths"] if p_ not in gone]
+                if not op["paths"]:
+                    continue
+            if op.get("path") in gone or op.get("file") in removed:
+                continue
+            hist.append(op)
+        r["history"] = hist
+        return bool(hist) and len(r["world"]["meta"]) >= 1
+
+    yield from drop_world_files(rp, fixups=fix)
